@@ -222,4 +222,21 @@ CLAIMS = {
                 "not modelled. KNOWN FINDING (known_findings.json): Dunn depends on cluster order when singleton clusters are present.",
         "technique": "Lean 4 theorems over executable model + differential correspondence + permutation oracles",
     },
+    "C15": {
+        "text": "C15_equals_api / _state / _ref (the command IS the constructor call followed by the plan, executed by the same step "
+                "function as the API), C15_plan_shape (the plan: one fit per file in sorted order; iff refinement or reclustering is requested, "
+                "set_merge(refine criterion, tolerance, threshold (+) change) then refine rounds on the concatenation of all files with "
+                "initial_mol 0, then recluster rounds; delete_internal_nodes), C15_normRounds, C15_total_run (for every option combination with "
+                "known criterion names, bf >= 2 and non-empty well-formed files the command completes), C15_numbering (the clusters are a "
+                "partition of 0..N-1 and label i is row i of the concatenation in sorted-file order: every reported summary is Exact for that "
+                "labelling), C15_centroids, C15_outdir / _run / _refused (non-empty directory: refused and untouched without overwrite; with "
+                "overwrite the listing afterwards is exactly the new outputs, no duplicates, centroid/tree files iff requested), "
+                "C15_multi_equals_api, C15_total_multi, C15_multi_partition. Correspondence: the real commands vs the API following the "
+                "model's plan vs the model.",
+        "note": TB + "PARTIAL: typer option parsing, pickle/.npy encoding, symlinks/copies, the monitor daemon and console output are exercised by "
+                "the suite, not modelled; --bb-variant, --max-fps, --max-files (hidden debug options) are out of scope. 'Monitor on/off does not "
+                "change the clusters' is exercised (subprocess runs with the monitor on are compared with the API). Fixed defects: "
+                "--overwrite removed the directory itself, --save-tree called a missing method (known_findings.json).",
+        "technique": "Lean 4 theorems over executable model + differential correspondence with the real commands",
+    },
 }
